@@ -46,30 +46,30 @@ func RegisterHarness(name string, fn HarnessFn) { harnesses[name] = fn }
 type RunFnT = func(prefix []int) vrt.Result
 
 type exploreArg struct {
-	Harness    string          `json:"harness"`
-	Arg        json.RawMessage `json:"arg"`
-	Prefix     []int           `json:"prefix"`
-	Bound      int             `json:"bound"`
-	Points     int             `json:"points"`
-	DaemonLast bool            `json:"daemon_last"`
-	Max        int64           `json:"max"`
-	Single     bool            `json:"single"` // run just this prefix (replay)
-	NoCache    bool            `json:"no_cache"` // disable happens-before state caching
-	DeadlineUnix int64         `json:"deadline"`
+	Harness      string          `json:"harness"`
+	Arg          json.RawMessage `json:"arg"`
+	Prefix       []int           `json:"prefix"`
+	Bound        int             `json:"bound"`
+	Points       int             `json:"points"`
+	DaemonLast   bool            `json:"daemon_last"`
+	Max          int64           `json:"max"`
+	Single       bool            `json:"single"`   // run just this prefix (replay)
+	NoCache      bool            `json:"no_cache"` // disable happens-before state caching
+	DeadlineUnix int64           `json:"deadline"`
 }
 
 type exploreRes struct {
-	Execs    int64                `json:"execs"`
-	Pruned   int64                `json:"pruned"`
-	States   int64                `json:"states"`
-	Points   int64                `json:"points"`
-	MaxPts   int                  `json:"max_pts"`
-	Outcomes map[string]int64     `json:"outcomes"`
-	Viols    []*report.Violation  `json:"viols"`
-	Capped   bool                 `json:"capped"`
-	Err      string               `json:"err"`
-	Children [][]int              `json:"children,omitempty"`
-	Sample   []int                `json:"sample,omitempty"`
+	Execs    int64               `json:"execs"`
+	Pruned   int64               `json:"pruned"`
+	States   int64               `json:"states"`
+	Points   int64               `json:"points"`
+	MaxPts   int                 `json:"max_pts"`
+	Outcomes map[string]int64    `json:"outcomes"`
+	Viols    []*report.Violation `json:"viols"`
+	Capped   bool                `json:"capped"`
+	Err      string              `json:"err"`
+	Children [][]int             `json:"children,omitempty"`
+	Sample   []int               `json:"sample,omitempty"`
 }
 
 func runExplore(raw json.RawMessage) (interface{}, error) {
